@@ -1430,6 +1430,10 @@ class ZoneFn:
         return dbm_upper(facts, t, self.sym_ub)
 
 
+import re as _re_mod
+_ELEM_READ = _re_mod.compile(r'^v\d+(x\d*|e\d*)$')
+
+
 def dbm_build(facts, sym_ub):
     syms = {}
     def idx(s):
@@ -1456,7 +1460,10 @@ def dbm_closure(syms, cons, sym_ub):
     for s, i in syms.items():
         if s is None:
             continue
-        d[z][i] = min(d[z][i], 0)               # 0 - s <= 0
+        if not s.startswith('elem:') and not _ELEM_READ.match(s):
+            # 0 - s <= 0.  Not for `elem:c` (bounds every element of c: vacuous when c is empty) and not for the symbol of one element read
+            # (its relation `read <= elem:c` is recorded globally; a lower bound on it would leak into elem:c where nothing was read)
+            d[z][i] = min(d[z][i], 0)
         d[i][z] = min(d[i][z], sym_ub(s))       # s - 0 <= ub
     for (i, j, c) in cons:
         if c < d[i][j]:
